@@ -91,6 +91,9 @@ fn tokens_both(bytes: &[u8], enc: &'static encoding_rs::Encoding) -> Result<(Vec
     };
     let s = enc.decode_without_bom_handling(bytes).0.into_owned();
     let h = norm_h(html5ever_tokens(&s));
+    if crate::oracle::take_oracle_panicked() {
+        return Err("ORACLE-PANICKED".into());
+    }
     Ok((l, h))
 }
 
@@ -140,9 +143,15 @@ pub fn check(c: &Case8) -> Result<Obs, (String, String)> {
         return Err(("unexpected-result".into(), ctx(format!("{:?}", r.final_res()))));
     }
     let out = r.out();
-    let (orig_l, orig_h) = tokens_both(&input, enc).map_err(|e| ("harness".to_string(), format!("original does not tokenize: {e}")))?;
+    let (orig_l, orig_h) = match tokens_both(&input, enc) {
+        Ok(x) => x,
+        // html5ever itself panicked: the oracle has no opinion on this case
+        Err(e) if e == "ORACLE-PANICKED" => return Ok(Obs { accepted: false, significant: false }),
+        Err(e) => return Err(("harness".to_string(), format!("original does not tokenize: {e}"))),
+    };
     let (out_l, out_h) = match tokens_both(&out, enc) {
         Ok(x) => x,
+        Err(e) if e == "ORACLE-PANICKED" => return Ok(Obs { accepted: false, significant: false }),
         Err(e) => return Err(("output-does-not-tokenize".into(), ctx(e))),
     };
     // the two tokenizers must agree on the output at all
